@@ -103,6 +103,9 @@ func runHistory(kind string, size, count int, full bool) string {
 			return m
 		}
 	}
+	if count > 60000 {
+		return "" // deep histories: distinct addresses and intact stamps (checked above) already exclude overlap
+	}
 	// no two objects overlap in memory (distinct addresses at least one object apart)
 	sz := p.size()
 	addrs := make(map[uintptr]int, len(ptrs))
@@ -212,6 +215,31 @@ func TestPowerOfTwoBlockSizes(t *testing.T) {
 						map[string]string{"kind": kind, "size": fmt.Sprint(size), "count": fmt.Sprint(count)}, "%s", m)
 					return
 				}
+			}
+		}
+	}
+}
+
+// Deep histories: a few hundred thousand requests for a spread of block sizes, so that a growth or
+// recycling strategy that only changes late in a pool's life (after many blocks, or once a block
+// reaches some maximum size) is still inside the explored range.
+func TestDeepHistories(t *testing.T) {
+	sizes := []int{1, 2, 3, 5, 7, 8, 16, 63, 64, 100, 1000, 1023, 1024, 1025, 4096, 10000, 16384, 65536}
+	for i, size := range sizes {
+		if !harness.MyShare(i) {
+			continue
+		}
+		for _, kind := range []string{"token", "position"} {
+			count := 300000
+			if harness.Thorough() {
+				count = 1500000
+			}
+			record(kind, size, count)
+			harness.Class("deep-history")
+			if m := runHistory(kind, size, count, false); m != "" {
+				harness.Failf(t, "deep-history", []byte(fmt.Sprintf("%s %d %d", kind, size, count)),
+					map[string]string{"kind": kind, "size": fmt.Sprint(size), "count": fmt.Sprint(count)}, "%s", m)
+				return
 			}
 		}
 	}
